@@ -5,6 +5,7 @@ iteration's behaviour does not depend on earlier iterations.  This module finds,
 that is (a) written inside a natural loop and (b) live at the loop head along in-loop paths (read before being fully
 overwritten).  The iterator itself (the local handed to Iterator::next) is expected; everything else must be in a
 reviewed table of the rule that tabulates the function."""
+import json
 import cfg
 from mirlib import callee_info
 
@@ -204,12 +205,27 @@ def state_of(facts, pth):
     return st
 
 
-def rule(ctx, rep, prop, prefixes, table):
+def load_table():
+    import os
+    import core
+    t = json.load(open(os.path.join(core.VERIF, "spec", "carried_state.json")))
+    return dict((k, v) for k, v in t.items() if not k.startswith("_"))
+
+
+def outer_fn(pth):
+    return pth.split("::{closure")[0]
+
+
+def rule(ctx, rep, prop, prefixes, table=None):
     """LC: every function / closure whose path starts with one of `prefixes` carries only the reviewed state
     `table` = {path: {name: reason}}; by default allowed: the diagnostics vector (append-only, checked by the effect rules),
     callbacks (type parameter F / closure types) whose state belongs to the caller"""
     import cfg as _cfg
     facts = ctx.mir
+    if table is None:
+        table = load_table()
+    rep.rule("LC", "state carried between elements: in %s and the closures nested in them, every loop-carried local (written in a natural loop and live at its head, the loop's own iterator excepted) and every capture by mutable reference "
+                   "is the diagnostics vector, a caller's callback, or listed in spec/carried_state.json - otherwise the one-generic-element tables do not describe later elements" % ", ".join(prefixes))
     n = 0
     for pth in sorted(facts.fns):
         if not any(pth == p or pth.startswith(p + "::") for p in prefixes):
@@ -218,11 +234,21 @@ def rule(ctx, rep, prop, prefixes, table):
         if f.get("derived"):
             continue
         n += 1
-        allowed = table.get(pth, {})
+        allowed = table.get(outer_fn(pth), [])
+        used = {}
         for kind, name, ty in state_of(facts, pth):
-            ok = name in allowed or name.lstrip("*") in allowed or (ty in DEFAULT_OK_TYPES) or (ty is not None and (ty == "F" or ty.startswith("{closure@")))
+            default_ok = (ty in DEFAULT_OK_TYPES) or (ty is not None and (ty == "F" or ty.startswith("{closure@")))
+            entry = None
+            if not default_ok:
+                for e in allowed:
+                    if e["ty"] == ty and used.get(ty, 0) < e["max"]:
+                        entry = e
+                        used[ty] = used.get(ty, 0) + 1
+                        break
+            ok = default_ok or entry is not None
             rep.check(ok, "LC", "%s|LC|%s|%s" % (prop, pth, name), _cfg.where(f),
-                      "%s keeps `%s` (%s, %s) from one element to the next: the per-element tables of this property describe ONE generic element and are valid for every element only when no such state exists "
-                      "(reviewed state: %r)" % (pth, name, kind, ty, sorted(allowed)),
-                      sample={"fn": pth, "state": name, "kind": kind, "why": allowed.get(name) or allowed.get(name.lstrip("*")) or "diagnostics vector / caller's callback"})
+                      "%s keeps `%s` (%s, type %s) from one element to the next: the per-element tables of this property describe ONE generic element and are valid for every element only when no such state exists "
+                      "(reviewed state of %s: %r)" % (pth, name, kind, ty, outer_fn(pth), ["%s x%d" % (e["ty"], e["max"]) for e in allowed]),
+                      sample={"fn": pth, "state": name, "kind": kind, "why": entry["why"] if entry else "diagnostics vector / caller's callback"})
+    rep.floor("LC", "functions and closures scanned for carried state (%s)" % prop, n, 1)
     return n
